@@ -466,6 +466,16 @@ class Check:
             else:
                 discharged += 1
         self.cov["discharged"] = discharged
+        # thorough tier: independent re-check of the compiled .olean files of everything the proofs import
+        if ok and self.tier == "thorough" and "leanchecker" not in self.cov and shutil.which("leanchecker"):
+            mods = sorted(files.keys())
+            t1 = time.time()
+            res = par_map(lambda m: (m,) + sh(["lake", "env", "leanchecker", m], cwd=LEAN, timeout=1800), mods, workers=6)
+            bad = [(m, out) for (m, rc, out) in res if rc != 0]
+            self.cov["leanchecker"] = {"modules": len(mods), "failed": [m for m, _ in bad], "wall_s": round(time.time() - t1, 1)}
+            for m, out in bad:
+                ok = False
+                self.obligation_broken("leanchecker rejects " + m, out)
         used = sorted({a for v in ax.values() for a in v})
         self.cov["trusted_base"] = ["Lean 4 kernel (lake build)", "axioms used: " + (", ".join(used) if used else "none")]
         self.cov["lean_build_s"] = round(time.time() - t, 1)
